@@ -560,7 +560,7 @@ fn lang(
             }
         }
 
-        n = current.parent_node();
+        n = super::parent(&current);
     }
 
     Ok(model::Value::Boolean(false))
